@@ -94,6 +94,13 @@ def synthetic(key):
     M = A.dot(A.T) + 0.05 * np.eye(n)
     M = np.round(M, 6)
     M = (M + M.T) / 2.0
+    if rng.random() < 0.5:
+        # "M is the stored matrix": a stored matrix need not be symmetric.
+        # An antisymmetric part leaves x'Mx unchanged, but not what a loader
+        # that "repairs" the matrix from one triangle computes.
+        B = np.array([[rng.uniform(-0.3, 0.3) for _ in range(n)]
+                      for _ in range(n)])
+        M = M + np.round(B - B.T, 6)
     rm = libfiles.random_group(rng, with_cp=True, with_h=True, with_s=True,
                                tref=298.15)
     rm['Cp'] = {100.0 + 200.0 * i: round(rng.uniform(-0.5, 0.8), 4)
